@@ -40,7 +40,7 @@ GIVEN_Q = [0.05, 0.3, 0.5, 0.8, 0.95, 0.99, 0.999, 0.9999]
 def generate(prop, seed, tier):
     S = core.SeedStream(seed)
     kind = S.pick(["windmeier", "nonzero"])
-    uni = {"kind": kind, "precision_factor": S.pick([0.1, 0.2, 0.5, 1.0]) if tier == "thorough" else S.pick([0.1, 0.2]), "random_state": S.pick([None, 0, 42, S.sub("rs") % 10000])}
+    uni = {"kind": kind, "precision_factor": S.pick([0.1, 0.2, 0.5, 1.0]) if tier == "thorough" else S.pick([0.1, 0.2]), "random_state": S.pick([None, 0, 42, S.sub("rs") % 10000]), "rs_type": S.wpick([("int", 4), ("np.int64", 1), ("np.int32", 0.5)])}
     if S.chance(0.5):
         uni["params"] = {"mode": "fitted", "letter": S.pick(["A", "B", "C"]), "n": S.pick([1500, 3000]), "dseed": S.sub("d")}
     else:
@@ -213,12 +213,19 @@ class Ref:
 # --------------------------------------------------------------------------
 
 
+def _rs(uni):
+    rs = uni["random_state"]
+    if rs is None:
+        return None
+    return {"int": int, "np.int64": np.int64, "np.int32": np.int32}[uni.get("rs_type", "int")](rs)
+
+
 def build(uni):
     p = uni["params"]
     if p["mode"] == "fitted":
-        t, data, sem = models.build_predefined(uni["kind"], p["letter"], p["n"], p["dseed"], transformed=True, precision_factor=uni["precision_factor"], random_state=uni["random_state"])
+        t, data, sem = models.build_predefined(uni["kind"], p["letter"], p["n"], p["dseed"], transformed=True, precision_factor=uni["precision_factor"], random_state=_rs(uni))
         return t
-    t, data, sem = models.build_predefined(uni["kind"], "A", 10, 0, fit=False, transformed=True, precision_factor=uni["precision_factor"], random_state=uni["random_state"])
+    t, data, sem = models.build_predefined(uni["kind"], "A", 10, 0, fit=False, transformed=True, precision_factor=uni["precision_factor"], random_state=_rs(uni))
     base = t.model
     d0 = base.distributions[0]
     d0.alpha, d0.beta, d0.delta = p["hs"]
@@ -284,7 +291,7 @@ def _execute(prop, scen):
 
     run = core.Run(prop, scen)
     uni = scen["universe"]
-    run.signature = core.digest([uni["kind"], uni["params"]["mode"], uni["random_state"] is None, [(o["op"], o.get("dim"), o.get("given_q"), o.get("seed") is None) for o in scen["ops"]]])
+    run.signature = core.digest([uni["kind"], uni["params"]["mode"], uni["random_state"] is None, uni.get("rs_type"), [(o["op"], o.get("dim"), o.get("given_q"), o.get("seed") is None) for o in scen["ops"]]])
     with seams.recorded_warnings():
         seams.pin_global(core.h64(scen["seed"], "build"))
         try:
@@ -365,13 +372,21 @@ def _execute(prop, scen):
                         run.violate("I2-samples-are-inverse-transformed-base-samples", "draw_sample", {"max_rel_dev": float(np.max(np.abs(x / want - 1))), "step": si})
                         return run
                 if op["n"] >= 1000:
-                    # law: Hs marginal, Tz | Hs through the Rosenblatt image
+                    # law: Hs marginal, Tz | Hs through the Rosenblatt image, which must also be
+                    # independent of Hs (uniform within quantile bins of Hs)
                     u0 = ref.hs_cdf(x[:, 0])
                     u1 = ref.tz_cdf(x[:, 1], x[:, 0])
                     for nm, u in (("hs", u0), ("tz|hs", u1)):
                         run.count("dkw_comparisons")
                         if not _ks(u) <= eps_dkw(len(u)):
                             run.violate("I2-sample-law", nm, {"sup_distance": _ks(u), "eps_dkw": eps_dkw(len(u)), "step": si})
+                            return run
+                    order = np.argsort(x[:, 0], kind="stable")
+                    for b, idx in enumerate(np.array_split(order, 5)):
+                        run.count("dkw_comparisons")
+                        d_ = _ks(u1[idx])
+                        if not d_ <= eps_dkw(len(idx)):
+                            run.violate("I2-sample-law", "tz|hs-within-hs-bin", {"bin": b, "sup_distance": d_, "eps_dkw": eps_dkw(len(idx)), "random_state": repr(_rs(uni)), "step": si})
                             return run
             elif k in ("cond_sample", "cond_cdf", "cond_icdf"):
                 dim = op["dim"]
